@@ -30,7 +30,8 @@ CONSTANTS
   TopOps,       \* subset of operation names enabled at top level
   BodyOps,      \* subset enabled inside closures
   MethOps,      \* subset enabled inside actor methods
-  RunTimes      \* set of instants (whole seconds) for run()
+  RunTimes,     \* set of instants (whole seconds) for run()
+  LogLevels     \* {} : built without the logger feature; else the levels given to set_logger
 
 VARIABLES d, mon, bad, script, hist, elog
 
@@ -47,20 +48,25 @@ DInit ==
     sync |-> << >>,          \* closures to execute synchronously (held-call flush)
     timers |-> << >>,        \* sequence of [at, c] in creation order
     now |-> 0, pc |-> "top", alive |-> TRUE, runArg |-> 0,
-    nextId |-> 1, nextAid |-> 1, nextOid |-> 1, nextRid |-> 1, nextTid |-> 1, topn |-> 0,
+    nextLog |-> 1, nextId |-> 1, nextAid |-> 1, nextOid |-> 1, nextRid |-> 1, nextTid |-> 1, topn |-> 0,
     actors |-> << >>,        \* aid -> [inner, bits, strong, prepQ, notify, hasval, kept, keptR, die]
     owners |-> << >>,        \* oid -> [aid, loc]    loc: top | msg | state | gone
     rets |-> << >>,          \* rid -> [kind, aid, loc]
     evs |-> << >>,           \* events emitted by the current step
     ops |-> << >> ]          \* script lines produced by the current body
 
+Logger == LogLevels # {}
+LogAllowed(lvl) == Logger /\ lvl \in FilterOf(LogLevels)
+SetLoggerEv == [e |-> "setlogger", levels |-> SetToSeq(LogLevels)]
+
 Init ==
   /\ d = DInit
-  /\ mon = [Init0({}) EXCEPT !.alive = "live"]
+  /\ mon = IF Logger THEN Apply([Init0({}) EXCEPT !.alive = "live"], SetLoggerEv).st
+            ELSE [Init0({}) EXCEPT !.alive = "live"]
   /\ bad = {}
-  /\ script = (0 :> << >>)
+  /\ script = (0 :> IF Logger THEN <<[op |-> "setlogger", levels |-> SetToSeq(LogLevels)]>> ELSE << >>)
   /\ hist = << >>
-  /\ elog = << >>
+  /\ elog = IF Logger THEN <<SetLoggerEv>> ELSE << >>
 
 Emit(s, e) == [s EXCEPT !.evs = Append(@, e)]
 Op(s, o) == [s EXCEPT !.ops = Append(@, o)]
@@ -111,8 +117,13 @@ DTerminate(s, a, cause) ==
       s1 == [s EXCEPT !.actors[a].bits = "zombie", !.actors[a].inner = "zombie", !.actors[a].prepQ = << >>]
       s2 == IF act.inner = "ready" THEN DropValue(s1, a)
             ELSE IF act.inner = "prep" THEN DropClosures(s1, act.prepQ) ELSE s1
+      marker == IF cause = "stopped" THEN "" ELSE IF cause = "dropped" THEN "dropped"
+                ELSE IF SubSeq(cause, 1, 6) = "failed" THEN "failed" ELSE "killed"
+      s3 == IF act.notify /\ LogAllowed("close")
+            THEN Emit(s2, [e |-> "logrec", id |-> act.logid, level |-> "close", parent |-> 0, marker |-> marker])
+            ELSE s2
   IN IF act.notify
-     THEN Emit([s2 EXCEPT !.actors[a].notify = FALSE],
+     THEN Emit([s3 EXCEPT !.actors[a].notify = FALSE],
                [e |-> "notify", aid |-> a, cause |-> cause, zombie |-> TRUE])
      ELSE s2
 
@@ -196,13 +207,18 @@ ApplyEff(s, cx, f) ==
          LET a == s.nextAid
              o == s.nextOid
              c == <<Clo("call", s.nextId, a, TRUE)>>
+             lid == IF Logger THEN s.nextLog ELSE 0
+             pid == IF InActor(cx) THEN s.actors[cx.aid].logid ELSE 0
              act == [inner |-> "prep", bits |-> "prep", strong |-> 1, prepQ |-> << >>, notify |-> TRUE,
-                     hasval |-> FALSE, kept |-> << >>, keptR |-> << >>, die |-> ""]
-             s1 == [s EXCEPT !.actors = @ @@ (a :> act), !.owners = @ @@ (o :> [aid |-> a, loc |-> "top"]),
+                     hasval |-> FALSE, kept |-> << >>, keptR |-> << >>, die |-> "", logid |-> lid]
+             s0 == IF LogAllowed("open")
+                   THEN Emit(s, [e |-> "logrec", id |-> lid, level |-> "open", parent |-> pid, marker |-> ""])
+                   ELSE s
+             s1 == [s0 EXCEPT !.nextLog = @ + 1, !.actors = @ @@ (a :> act), !.owners = @ @@ (o :> [aid |-> a, loc |-> "top"]),
                              !.nextAid = @ + 1, !.nextOid = @ + 1, !.nextId = @ + 1,
                              !.deferQ = Append(@, c[1])]
              s2 == Emit(s1, [e |-> "acreate", aid |-> a, oid |-> o, parent |-> IF InActor(cx) THEN cx.aid ELSE 0,
-                             slab |-> FALSE, logid |-> 0])
+                             slab |-> FALSE, logid |-> lid])
          IN Op(Emit(s2, SubEv("main", c[1])), [op |-> "acreate", aid |-> a, oid |-> o, item |-> c[1].id])
     [] f.op = "call" ->
          LET c == [Clo("call", s.nextId, f.aid, f.prep) EXCEPT !.ho = f.ho, !.hr = f.hr]
